@@ -597,7 +597,9 @@ Qed.
        about: timeThreshold, timeThresholdParent, ChildList.FindVisible, ChildList.VersionBefore,
        nextVersionIndex (VersionIndex as Z), updateTimestamp, Child.Update (Index 0),
        updatesSortIndex.Less, parentWay.SetChild and parentRelation.SetChild (the glue for way nodes
-       and for relation members of all three kinds), and the time.Date literal of
+       and for relation members of all three kinds), the rule deciding which references are handled
+       (Refs()'s annotated flag + mapChildLocs' skip condition = [filtered_out]), the default
+       threshold of options.go (the harness omits Threshold when it is 30 minutes), and the time.Date literal of
        osm.CommitInfoStart. *)
 Theorem C11_generated_code_is_model :
   (forall a b, gen_less_index a b = less a b) /\
@@ -610,6 +612,9 @@ Theorem C11_generated_code_is_model :
   (forall cis current cl np o,
      gen_next_version_index cis current cl np o = res_map Z.of_nat (next_version_index cis current cl np o)) /\
   (forall c r, gen_way_set_child c r = set_ref c r /\ gen_relation_set_child c r = set_ref c r) /\
+  (forall filter r, gen_skip_ref (gen_way_annotated r) filter (r_id r) = filtered_out filter r /\
+                    gen_skip_ref (gen_relation_annotated r) filter (r_id r) = filtered_out filter r) /\
+  gen_default_threshold = 30 * 60 * 1000000000 /\
   unix_nanos gen_commit_info_start_args = Some 1347442203000000000.
 Proof. exact generated_code_is_model. Qed.
 Print Assumptions C11_generated_code_is_model.
